@@ -102,11 +102,23 @@ def r2(ctx):
             ctx.bad("delay-measure:%s:arm" % err, "failing edge for %s not found" % err, bd.where(line=bd.line))
             continue
         region = region_of(bd, arms[0])
-        reps = [x for x in call_sites(bd, r"TimeSyncTask::report_error$") if x.idx in region]
-        ok = len(reps) == 1 and mentions(sym.call_expr(reps[0].term)[2][2], lambda s: s[0] == "agg" and s[2] == err)
+        after = bd.reachable(arms[0].edge[1])
+        allreps = call_sites(bd, r"TimeSyncTask::report_error$")
+        reps = [x for x in allreps if x.idx in region]
+        if reps:
+            ok = len(reps) == 1 and mentions(sym.call_expr(reps[0].term)[2][2], lambda s: s[0] == "agg" and s[2] == err)
+        else:
+            # the error is built on the failing edge and reported at a shared site behind it (a helper returning the error to report):
+            # built here, every way out passes the report, and what is reported can be this error
+            built = any(st.rv["k"] == "agg" and st.rv.get("var") == err for b_ in region for st in bd.blocks[b_].stmts if st.kind == "assign")
+            shared = [x for x in allreps if x.idx in after]
+            passes = bool(shared) and all(must_pass(bd, arms[0].edge[1], r_, {x.idx for x in shared}) for r_ in return_blocks(bd) if r_ in after)
+            vals = [v for x in shared for v in resolve_defs(bd, sym, sym.call_expr(x.term)[2][2], depth=3)]
+            ok = built and passes and any(mentions(v, lambda s: s[0] == "agg" and s[2] == err) for v in vals)
+            reps = shared
         ctx.check(ok, "delay-measure:%s" % err, "the failing edge reports TimeSyncError::%s" % err, bd.where(arms[0].edge[1]), bad_detail="the failing edge reports %s" % ([expr_str(sym.call_expr(x.term)[2][2])[:60] for x in reps]))
-        rets = [(b, e2) for b, si, st, e2 in ret_sites(bd, sym) if b.idx in region]
-        ctx.check(bool(rets) and all(e2[0] == "agg" and e2[2] == "Err" for _, e2 in rets) and c.idx not in region, "delay-measure:%s:fails" % err, "…and fails the task without writing a time", bd.where(arms[0].edge[1]))
+        rets = [(b, e2) for b, si, st, e2 in ret_sites(bd, sym) if b.idx in after]
+        ctx.check(bool(rets) and all(e2[0] == "agg" and e2[2] == "Err" for _, e2 in rets) and c.idx not in after, "delay-measure:%s:fails" % err, "…and fails the task without writing a time", bd.where(arms[0].edge[1]))
     outcome = {b.idx for b in call_sites(bd, r"TimeSyncTask::report_error$|TimeSyncTask::change_state$")}
     for b, si, st, e2 in ret_sites(bd, sym):
         ctx.check(not bd.can_reach(0, b.idx, removed_blocks=outcome), "delay-measure:every-return-reports", "every return reports or continues", bd.where(b.idx))
